@@ -213,8 +213,13 @@ def feasible(s):
     return (all(0 <= x <= 64 for x in s["kl"] + s["cl"]) and 0 <= s["nw"] <= 4096 and 0 <= s["rows"] <= 4096 and
             all(0 <= x < 2 ** 32 for x in s["od"] + s["po"] + s["rg"] + s["mx"]) and all(x <= 64 for x in s["rg"]))
 
+def realisable(s):
+    """a vector of fewer than two knots is always sorted"""
+    s["ks"] = [1 if k < 2 else f for k, f in zip(s["kl"], s["ks"])]
+    return s
+
 def build_cases(tier, rng):
-    full = [(c, s) for c, s in lattice_1d() + lattice_mut(1) + lattice_mut(2) + lattice_mut(3) if feasible(s)]
+    full = [(c, realisable(s)) for c, s in lattice_1d() + lattice_mut(1) + lattice_mut(2) + lattice_mut(3) if feasible(s)]
     seen, cases = set(), []
     def push(cls, entry, s):
         k = shape_key(entry, s)
@@ -554,6 +559,11 @@ def run(info, out):
             m = model.get(c["id"])
             if m and m["check"] == "accept" and m["contract"] == "0" and not c["entry"].startswith("c_"):
                 escapes.append(c)
+    # when the translator failed closed, Generated_fitargs.v (hence the extracted model) is the one of the last tree
+    # that translated: its disagreements with the code are reported only if the oracle alone finds nothing
+    stale = any("fitargs" in b and "translator" in b for b in info["broken"])
+    if stale and any(f[2] == "oracle" for f in findings):
+        findings = [f for f in findings if f[2] == "oracle"]
     # most informative first: sanitizer reports, then oracle, then correspondence
     order = {"oracle": 0, "corr": 1}
     findings.sort(key=lambda f: (0 if ":sanitizer:" in f[0] else 1, order.get(f[2], 2)))
@@ -602,6 +612,7 @@ def run(info, out):
         "sanitizer_reports": len(crashes),
         "hangs_not_reproduced_when_rerun_alone": FLAKY_HANGS[:5],
         "model_accept_but_contract_false": len(escapes),
+        "model_is_stale_translator_failed": stale,
         "escalated_extra_cases": escal,
         "finding_signatures": sigs,
         "correspondence": "fit_check/fit_step/glamfit_c (extracted) vs splinetable::fit / splinetable_glamfit, checked build (ASan+UBSan), exact: first failing check + dimension, object dump unchanged on reject",
